@@ -193,8 +193,9 @@ def check_integral_handler(ctx):
     ctx.check(ok, "integral: derivative of the quadrature state is the integrand", detail="integrand", expected="stage.set_der(I, expr)", found="; ".join(ast.unparse(c) for c in sd), fi=f)
     rets = [r for r in walk_no_nested(f.node) if isinstance(r, ast.Return) and r.value is not None]
     ok = len(rets) == 1 and is_call_to(rets[0].value, "at_tf", "stage") and isinstance(rets[0].value.args[0], ast.Name) and st and sc.reaching(rets[0].value.args[0].id, rets[0].value.args[0]) is st[0]
-    gs = [(ast.unparse(t).replace(" ", ""), p) for r in rets for t, p in sc.guards(r)]
-    ok = ok and gs == [("phase==1", True)]
+    from ..paths import canon_guard
+    gs = [canon_guard(t, p) for r in rets for t, p in sc.path_guards(r)]     # `if phase == 1: ..` and `if phase != 1: return` alike
+    ok = ok and gs == [canon_guard("phase == 1", True)]
     ctx.check(ok, "integral: value is the quadrature state at tf (phase 1)", detail="integral value", expected="return stage.at_tf(I) in phase 1", found="; ".join(ast.unparse(r) for r in rets), fi=f)
     g = prog.own_method("Stage", "integral")
     rets = [r for r in walk_no_nested(g.node) if isinstance(r, ast.Return)]
